@@ -176,6 +176,10 @@ pub fn replay_tri(rp: &TriReplay) -> Result<Option<Violation>, String> {
         CompileOutcome::Panic(p) => return Err(format!("compiler panics on the replayed program: {}", p)),
     };
     let reference_out = reference(&c, &rp.case.inputs)?;
+    if rp.mode == "model" {
+        let mut st = Stats::default();
+        return Ok(crate::refmodels::model_check(&rp.case, &c.out_type, &reference_out, &mut st));
+    }
     if rp.mode == "global" {
         let ins = global_inputs(&rp.case, &c, rp.dealer_seed)?;
         return Ok(match global_run(&c, ins, rp.cfg.tapes[0]) {
